@@ -416,6 +416,24 @@ def enum_arms(body, sw, nvariants=2):
     return tg
 
 
+def some_region(body, arg):
+    """Blocks in which the Option-typed parameter `arg` is known to be Some, and the origins its payload has there:
+    `match`/`if let` on the parameter itself, or `let p = arg?;` (the Continue arm of Try::branch(arg))."""
+    blocks, payloads = set(), [("field", ("downcast", ("arg", arg), "Some"), "0")]
+    for sw in discr_switches(body):
+        o = sw[1]
+        if o == ("discr", ("arg", arg)):
+            arms = enum_arms(body, sw)
+            if 1 in arms:
+                blocks |= dominated(body, arms[1])
+        elif o[0] == "discr" and o[1][0] == "call" and o[1][1] == "std::ops::Try::branch" and strip(o[1][2][0]) == ("arg", arg):
+            arms = enum_arms(body, sw)
+            if 0 in arms:
+                blocks |= dominated(body, arms[0])
+                payloads.append(("field", ("downcast", o[1], "Continue"), "0"))
+    return blocks, payloads
+
+
 def zero_tests(body):
     """[(bb, tested origin, zero_target, nonzero_target)] for every live switch that separates `x == 0` from `x != 0`:
     `if x == 0`, `if x != 0`, `match x { 0 => .., _ => .. }` all normalise to the same tuple."""
@@ -481,6 +499,9 @@ def peel(o, through_manuallydrop=True):
             continue
         if o[0] == "call" and (o[1] in WRAPPERS or (through_manuallydrop and o[1].endswith("ManuallyDrop::<T>::new"))) and o[2]:
             o = o[2][0]
+            continue
+        if o[0] == "call" and o[1].endswith(("<impl *const T>::cast", "<impl *mut T>::cast", "<impl *mut T>::cast_const", "<impl *const T>::cast_mut")) and o[2]:
+            o = o[2][0]      # `ptr.cast::<U>()` is `ptr as *const U`
             continue
         return o
 
